@@ -229,6 +229,74 @@ package stgutg
 //@ ensures count: ue.ULCount.Get() == 2
 //@ ensures sameue: result0 == ue && ue.RanUeNgapId == old(ue.RanUeNgapId)
 
+// The identities in the exchange (C01: "the SUCI and PLMN identify the configured subscriber, RES*
+// equals the AMF's XRES*"): the mobile identity of both Registration Requests is the null-scheme SUCI
+// of the UE's own SUPI for the configured MNC length, and the serving network name handed to the key
+// derivation is the one of TS 24.501 9.12.1 for the configured MCC/MNC — the precondition of
+// DeriveRESstarAndSetKey's contract (C05), proved here at its call site.  One case per MNC length.
+//@ func RegisterUE
+//@ prop C01
+//@ behavior ids2
+//@ proofonly
+//@ shape mnc 2
+//@ shape mcc 3
+//@ shape ue.Supi 20
+//@ requires supi: ids.IsImsiSupi(ue.Supi)
+//@ driver
+//@ assumepre
+//@ nosafety
+//@ assigns global free5gclib/nas/security/snow3g.lfsr free5gclib/nas/security/snow3g.fsm
+//@ call (*RanUeContext).DeriveRESstarAndSetKey sn (snName string, mnc string, mcc string): snName == kdfspec.SNName(mcc, mnc)
+//@ call GetRegistrationRequest suci (mobileIdentity nasType.MobileIdentity5GS, ue *tglib.RanUeContext, mnc string): vcIsSuciOf(mobileIdentity, ue.Supi, len(mnc))
+
+// The identities in the exchange (C01: "the SUCI and PLMN identify the configured subscriber, RES*
+// equals the AMF's XRES*"): the mobile identity of both Registration Requests is the null-scheme SUCI
+// of the UE's own SUPI for the configured MNC length, and the serving network name handed to the key
+// derivation is the one of TS 24.501 9.12.1 for the configured MCC/MNC — the precondition of
+// DeriveRESstarAndSetKey's contract (C05), proved here at its call site.  One case per MNC length.
+//@ func RegisterUE
+//@ prop C01
+//@ behavior ids3
+//@ proofonly
+//@ shape mnc 3
+//@ shape mcc 3
+//@ shape ue.Supi 20
+//@ requires supi: ids.IsImsiSupi(ue.Supi)
+//@ driver
+//@ assumepre
+//@ nosafety
+//@ assigns global free5gclib/nas/security/snow3g.lfsr free5gclib/nas/security/snow3g.fsm
+//@ call (*RanUeContext).DeriveRESstarAndSetKey sn (snName string, mnc string, mcc string): snName == kdfspec.SNName(mcc, mnc)
+//@ call GetRegistrationRequest suci (mobileIdentity nasType.MobileIdentity5GS, ue *tglib.RanUeContext, mnc string): vcIsSuciOf(mobileIdentity, ue.Supi, len(mnc))
+
+// NG Setup announces the PLMN of the configured IMSI (octets 2..4 of its SUCI).
+//@ func ManageNGSetup
+//@ prop C01
+//@ behavior ids2
+//@ proofonly
+//@ shape mnc 2
+//@ shape imsi 15
+//@ requires digits: vc.Forall(0, 15, func(i int) bool { return '0' <= imsi[i] && imsi[i] <= '9' })
+//@ driver
+//@ assumepre
+//@ nosafety
+//@ assigns global free5gclib/nas/security/snow3g.lfsr free5gclib/nas/security/snow3g.fsm tglib/ngapTestpacket.TestPlmn
+//@ call GetNGSetupRequest plmn (mobilePLMN []uint8, imsi string, mnc string): len(mobilePLMN) == 3 && vc.Forall(0, 3, func(j int) bool { return mobilePLMN[j] == ids.SUCIByte([]byte(imsi), len(mnc), j+1) })
+
+// NG Setup announces the PLMN of the configured IMSI (octets 2..4 of its SUCI).
+//@ func ManageNGSetup
+//@ prop C01
+//@ behavior ids3
+//@ proofonly
+//@ shape mnc 3
+//@ shape imsi 15
+//@ requires digits: vc.Forall(0, 15, func(i int) bool { return '0' <= imsi[i] && imsi[i] <= '9' })
+//@ driver
+//@ assumepre
+//@ nosafety
+//@ assigns global free5gclib/nas/security/snow3g.lfsr free5gclib/nas/security/snow3g.fsm tglib/ngapTestpacket.TestPlmn
+//@ call GetNGSetupRequest plmn (mobilePLMN []uint8, imsi string, mnc string): len(mobilePLMN) == 3 && vc.Forall(0, 3, func(j int) bool { return mobilePLMN[j] == ids.SUCIByte([]byte(imsi), len(mnc), j+1) })
+
 //@ func EstablishPDU
 //@ prop C02
 //@ behavior trace
